@@ -251,14 +251,14 @@ def run(ctx: Ctx):
     # forward mode keeps the offset of a mid-slot bound (slotStartOffset: `earliest_start > slot_start`); the backward walk
     # starts at dateToIdx(deadline) - 1 whatever the position of the deadline inside its slot, so the part of the deadline's
     # slot before the deadline is never offered to the task
-    from .common import enclosing_ifs as _ei2
+    from .common import branch_of as _bof
     bwd_inits = [n for n in own_nodes(sched) if isinstance(n, ast.Assign) and norm(n.targets[0]) == "self.currentSlotIdx"
-                 and any(norm(i.test) == "forward" and b == "F" for (i, b) in _ei2(n, sched.node))
+                 and _bof(sched, n, "forward") == "F"
                  and "dateToIdx" in norm(n.value)]
     if not bwd_inits:
         raise AnchorMissing("TaskScenario.schedule: backward cursor initialisations not found")
     aligned_aware = [c for c in own_nodes(sched) if isinstance(c, ast.Compare) and "idxToDate" in norm(c)
-                     and any(norm(i.test) == "forward" and b == "F" for (i, b) in _ei2(c, sched.node))
+                     and _bof(sched, c, "forward") == "F"
                      and any(w in norm(c) for w in ("latest_end", "end_date"))]
     ctx.ob("R08.10", f"{sched.qual}: backward walk distinguishes a deadline inside a slot ({len(bwd_inits)} cursor initialisations)", (sched, bwd_inits[0]),
            bool(aligned_aware),
